@@ -258,6 +258,11 @@ def residual(m, eqs, env, der):
             blocks.append(("bag", out))
         else:
             blocks.append(("seq", res_eq(q)))
+    for _kind, vals in blocks:
+        for v in vals:
+            if not math.isfinite(v) or abs(v) > 1e150:
+                # overflow in the reference itself (inf - inf, inf vs 1e308): nothing to compare at this point
+                raise X.Fragile("non-finite reference residual")
     return blocks
 
 
